@@ -4,6 +4,7 @@ package server
 // network, inside a synctest bubble.  Shared by every family.
 
 import (
+	"log/slog"
 	"context"
 	"crypto/sha256"
 	"encoding/binary"
@@ -153,7 +154,14 @@ func (w *simWorld) peerByAddr(a string) *simPeer {
 // ---------------------------------------------------------------- server setup
 
 func (w *simWorld) startServer() error {
-	w.s = NewBgpServer()
+	if os.Getenv("VSIM_GOBGP_LOG") != "" {
+		// debugging aid: the daemon's own log on stderr (never part of the event log)
+		lv := &slog.LevelVar{}
+		lv.Set(slog.LevelDebug)
+		w.s = NewBgpServer(LoggerOption(slog.New(slog.NewTextHandler(os.Stderr, &slog.HandlerOptions{Level: lv})), lv))
+	} else {
+		w.s = NewBgpServer()
+	}
 	go w.s.Serve()
 	g := w.sc.Global
 	glob := &api.Global{Asn: g.AS, RouterId: g.RouterID, ListenPort: -1}
